@@ -25,7 +25,7 @@ LEVEL_TEXT = ("Byte equality with the single-process matrix is demanded for: eve
 LEVEL_NOTE = "Trusted: the controlled pool covers the completion orders a real pool can produce for the task counts explored; fork start method."
 RULE = "case = (configuration, pool kind, worker count, completion permutation | delay plan | rebuild history); non-trivial when >= 2 tasks or >= 2 builds; distinct by configuration digest and schedule"
 ASSUMPTIONS = ["the library reaches its pool through the module attribute slopecovariance.multiprocessing"]
-REQUIRED = ["slopecovariance.py:CovarianceMatrix.make_covariance_matrix", "slopecovariance.py:wfs_covariance_mpwrap"]
+REQUIRED = ["slopecovariance.py:CovarianceMatrix.make_covariance_matrix"]
 REQUIRED_COUNTERS = ["controlled_builds", "real_pool_builds", "rebuild_histories", "distinct_completion_orders_controlled", "real_completion_orders_logged"]
 TIMEOUT = {"quick": 1200, "thorough": 7200}
 
@@ -36,7 +36,13 @@ def plan(tier, seed):
 
 
 def small_cfg(rng, n_wfs):
-    c = slopecfg.make_config(rng, n_wfs=n_wfs, max_n=3)
+    v = rng.random()
+    if n_wfs >= 2 and v < 0.15:
+        c = slopecfg.nearly_equal_sensors(rng, max_n=3, n_wfs=n_wfs)
+    elif n_wfs >= 2 and v < 0.25:
+        c = slopecfg.layer_above_gs(rng, max_n=3, n_wfs=n_wfs)
+    else:
+        c = slopecfg.make_config(rng, n_wfs=n_wfs, max_n=3)
     c["n_layers"] = min(c["n_layers"], 3)
     for k in ("layer_altitudes", "layer_r0s", "layer_L0s"):
         c[k] = c[k][:c["n_layers"]]
